@@ -316,6 +316,130 @@ namespace
     }
 }
 
+namespace
+{
+    // ---- storage / archive objects that were copied, moved, returned or relocated before use ----
+    static const size_t RLEN[] = {0, 1, 13, 14, 15, 16, 17, 31, 32, 300};
+    static void relocated_case()
+    {
+        const int NCLS = 5, NL = sizeof(RLEN) / sizeof(RLEN[0]);
+        int c = mc::choose(NCLS * W_COUNT * NL);
+        int cls = c / (W_COUNT * NL), way = c / NL % W_COUNT;
+        size_t len = RLEN[c % NL];
+        int pre_n = mc::choose(2); // something is read / written before the relocation
+        static const char *CN[] = {"deserialize_buffer_storage", "deserialize_buffer_storage.decode", "string_storage", "serializer", "deserializer"};
+        mc::describe("new[" C09_COMPILER "] %s %s after %d use(s), payload of %zu bytes", CN[cls], way_name(way), pre_n, len);
+        std::string raw(len, '\0');
+        for (size_t i = 0; i < len; i++)
+            raw[i] = (char)(i * 31 + 7);
+        std::vector<u8> va(raw.begin(), raw.end()), vb(raw.rbegin(), raw.rend());
+        std::string wire;
+        ref_enc(wire, va);
+        ref_enc(wire, vb);
+        Exact in_raw(raw.data(), raw.size()), in_wire(wire.data(), wire.size()); // caller's memory, alive throughout
+        bool ok = true, done = true;
+        typedef igris::deserialize_buffer_storage DBS;
+        mc::crash_context("C09.new.relocated.%s", CN[cls]);
+        switch (cls)
+        {
+        case 0: // the bounded reader as a byte source
+        {
+            size_t k = pre_n ? (len < 3 ? len : 3) : 0;
+            done = with_relocated<DBS>(
+                way, [&] { return DBS(igris::buffer(in_raw.p, in_raw.n)); },
+                [&](DBS &st) {
+                    std::string x = st.loads(k);
+                    ok = ok && x == raw.substr(0, k);
+                },
+                [&](DBS &st) {
+                    ok = ok && st.avail() == (int)(len - k);
+                    std::string x = st.loads(len - k);
+                    ok = ok && x == raw.substr(k) && st.avail() == 0;
+                    std::string y = st.loads(5); // nothing left: delivers nothing, reads nothing
+                    ok = ok && st.avail() == 0;
+                });
+            break;
+        }
+        case 1: // ... and under igris::deserialize<T>(storage)
+            done = with_relocated<DBS>(
+                way, [&] { return DBS(igris::buffer(in_wire.p, in_wire.n)); },
+                [&](DBS &st) {
+                    if (pre_n)
+                        ok = ok && eq(igris::deserialize<std::vector<u8>>(st), va);
+                },
+                [&](DBS &st) {
+                    if (!pre_n)
+                        ok = ok && eq(igris::deserialize<std::vector<u8>>(st), va);
+                    ok = ok && eq(igris::deserialize<std::vector<u8>>(st), vb) && st.avail() == 0;
+                });
+            break;
+        case 2: // the owning writer storage
+            done = with_relocated<igris::string_storage>(
+                way, [&] { return igris::string_storage(); },
+                [&](igris::string_storage &st) {
+                    if (pre_n)
+                        igris::serialize(va, st);
+                },
+                [&](igris::string_storage &st) {
+                    if (!pre_n)
+                        igris::serialize(va, st);
+                    igris::serialize(vb, st);
+                    ok = ok && st.storage() == wire;
+                });
+            break;
+        case 3: // archive objects refer to the caller's storage
+        {
+            igris::string_storage st;
+            typedef igris::serializer<igris::string_storage> SER;
+            done = with_relocated<SER>(
+                way, [&] { return SER(st); },
+                [&](SER &ar) {
+                    if (pre_n)
+                        ar.serialize(va);
+                },
+                [&](SER &ar) {
+                    if (!pre_n)
+                        ar.serialize(va);
+                    ar &vb;
+                    ok = ok && st.storage() == wire;
+                });
+            break;
+        }
+        default:
+        {
+            DBS st(igris::buffer(in_wire.p, in_wire.n));
+            typedef igris::deserializer<DBS> DES;
+            done = with_relocated<DES>(
+                way, [&] { return DES(st); },
+                [&](DES &ar) {
+                    if (pre_n)
+                        ok = ok && eq(ar.deserialize<std::vector<u8>>(), va);
+                },
+                [&](DES &ar) {
+                    std::vector<u8> x = va, y;
+                    if (!pre_n)
+                        ar.deserialize(x);
+                    ar &y;
+                    ok = ok && eq(x, va) && eq(y, vb) && st.avail() == 0;
+                });
+            break;
+        }
+        }
+        if (!done)
+        {
+            mc::describe("new[" C09_COMPILER "] %s cannot be %s (not assignable)", CN[cls], way_name(way));
+            return;
+        }
+        if (way != W_DIRECT)
+            mc::nontrivial();
+        mc::outcome(mc::fmt("reloc/%s/%d/%zu", CN[cls], way, len));
+        if (!ok)
+            mc::violation(std::string("C09.new.relocated.") + CN[cls], "%s %s after %d use(s), payload of %zu bytes: wrong data / position after the relocation",
+                          CN[cls], way_name(way), pre_n, len);
+        mc::crash_context("C09.new.harness");
+    }
+}
+
 #ifdef EXTRAS
 const char *const c09::framework = "new";
 #endif
@@ -333,6 +457,7 @@ MC_INIT
     add_big<ld, 4096>(64); // 65536 bytes of 16-byte images
 
     mc::add_check("new.storage_reader", storage_reader_case);
+    mc::add_check("new.relocated_storages", relocated_case);
     goldens().push_back({"i32", [] { golden<i32>("i32 0x01020304", 0x01020304, B("\x04\x03\x02\x01")); }});
     goldens().push_back({"u64", [] { golden<u64>("u64 0x0102030405060708", 0x0102030405060708ull, B("\x08\x07\x06\x05\x04\x03\x02\x01")); }});
     goldens().push_back({"i16 -2", [] { golden<i16>("i16 -2", -2, B("\xfe\xff")); }});
